@@ -420,13 +420,29 @@ def _eval_job(args) -> Tuple[str, Optional[str], int]:
             # recursion depth: a large all-zero border string must not exhaust the interpreter stack
         elif kind == "compass":
             w = SerWorld(repo, "compass")
-            bodies = ["", "g", "1", "1.2", "1.23", "-1", "-1f.23", "z1.23", "....", "1.23k", "_", "٣...", "--1f..."]
-            for hw in ("4/5", "0/5", "5/0", "x/y", "-1/3"):
+            bodies = ["", "g", "1", "1.2", "1.23", "-1", "-1f.23", "z1.23", "....", "1.23k", "_", "٣...", "--1f...", "z1.23z1.23", "{", "-ff-10.0", "zz"]
+            for hw in ("4/5", "0/5", "5/0", "x/y", "-1/3", "+4/5", "1/1"):
                 for b in bodies:
                     n += 1
-                    st, r = w.call("parse_puzz_link_url", f"https://puzz.link/p?compass/{hw}/{b}")
+                    u = f"https://puzz.link/p?compass/{hw}/{b}"
+                    st, r = w.call("parse_puzz_link_url", u)
                     if st == "raise" and r != "ValueError":
                         return "bad", f"parse_puzz_link_url('.../compass/{hw}/{b}') raises {r}", n
+                    if st == "ok":
+                        try:
+                            hh, ww, res = r
+                            okay = isinstance(hh, int) and isinstance(ww, int) and hh > 0 and ww > 0 and all(
+                                0 <= c[0] < hh and 0 <= c[1] < ww and all(isinstance(v, int) and v >= -1 for v in c[2:]) for c in res)
+                        except (TypeError, ValueError):
+                            okay = False
+                        if not okay:
+                            return "bad", f"parse_puzz_link_url('.../compass/{hw}/{b}') returns {r!r}: not a problem of the stated dimensions", n
+                        st2, u2 = w.call("to_puzz_link_url", hh, ww, list(res))
+                        if st2 != "ok":
+                            return "bad", f"parse_puzz_link_url('.../compass/{hw}/{b}') returns {r!r}, which to_puzz_link_url rejects ({u2})", n
+                        st3, r3 = w.call("parse_puzz_link_url", u2)
+                        if st3 != "ok" or tuple(r3[:2]) != (hh, ww) or sorted(map(tuple, r3[2])) != sorted(map(tuple, res)):
+                            return "bad", f"parse_puzz_link_url('.../compass/{hw}/{b}') returns {r!r}; its canonical URL {u2!r} parses to {st3} {r3!r}", n
     except Undecided as ex:
         return "undecided", str(ex), n
     return "ok", None, n
